@@ -118,13 +118,20 @@ pub fn split_compressed_records(data: &[u8]) -> Vec<Record> {
             break;
         }
 
+        // A truncated size prefix or record ends the list
+        let Some(prefix) = data.get(position..position + 4) else {
+            break;
+        };
+
         let mut record_size = [0; 4];
-        record_size.copy_from_slice(&data[position..position + 4]);
+        record_size.copy_from_slice(prefix);
         let record_size = i32::from_be_bytes(record_size).unsigned_abs() as usize;
 
-        records.push(Record::from_slice(
-            &data[position..position + record_size + 4],
-        ));
+        let Some(record) = data.get(position..position + record_size + 4) else {
+            break;
+        };
+
+        records.push(Record::from_slice(record));
         position += record_size + 4;
     }
 
